@@ -1,7 +1,7 @@
 /-
   `graphtage.search.IterativeTighteningSearch` over trajectory items.
   The two Fibonacci heaps are abstract: a list of nodes (node id, item, STALE key = `get_range(item)` at push time)
-  plus the identity of `_min`.  `push` updates `_min` exactly as the code does (`node < self._min`); after a `pop`
+  plus the node that is `_min`.  `push` updates `_min` exactly as the code does (`node < self._min`); after a `pop`
   the new `_min` depends on the heap's internal structure and is an oracle answer `sel k` (k-th pop of the run),
   validated to be a node of minimal key (otherwise the first minimal node is used and `bad` is set).
   Only Lean core + Range + Bounded are imported.
@@ -21,20 +21,20 @@ deriving Repr, DecidableEq
 
 structure Heap where
   es : List HEntry
-  min : Option Nat
+  min : Option HEntry             -- the node `_min` points to
 deriving Repr
 
 namespace Heap
 def empty : Heap := ⟨[], none⟩
 def isEmpty (h : Heap) : Bool := h.es.isEmpty
-def minEntry (h : Heap) : Option HEntry := h.min.bind (fun m => h.es.find? (fun e => e.nid == m))
+def minEntry (h : Heap) : Option HEntry := h.min
 /-- `heap.peek()` (no deleted node is ever inside a heap here) -/
 def peek (h : Heap) : Option Nat := h.minEntry.map (·.item)
 /-- `heap.push(item)` with `key = item.bounds()` now -/
 def push (h : Heap) (nid item : Nat) (key : Range) : Heap :=
-  match h.minEntry with
-  | none => ⟨h.es ++ [⟨nid, item, key⟩], some nid⟩
-  | some m => ⟨h.es ++ [⟨nid, item, key⟩], if Range.lt key m.key then some nid else h.min⟩
+  match h.min with
+  | none => ⟨h.es ++ [⟨nid, item, key⟩], some ⟨nid, item, key⟩⟩
+  | some m => ⟨h.es ++ [⟨nid, item, key⟩], if Range.lt key m.key then some ⟨nid, item, key⟩ else some m⟩
 /-- is `e` a node of minimal key in `es` ? -/
 def isMinIn (es : List HEntry) (e : HEntry) : Bool := es.contains e && es.all (fun x => !Range.lt x.key e.key)
 def firstMin : List HEntry → Option HEntry
@@ -62,21 +62,23 @@ abbrev Sel := Nat → Option Nat    -- k-th pop ↦ item of the heap's new `_min
 def SS.init (σ : St) (ib : Range) : SS :=
   ⟨σ, some (List.range σ.length), Heap.empty, Heap.empty, 0, ib, 0, [], false, false⟩
 
-/-- remove node `nid` from a heap (`decrease_key(node, -∞); pop()`, or `pop()` when `nid` is `_min`) -/
-def popNode (sel : Sel) (s : SS) (isT : Bool) (nid : Nat) : SS :=
+/-- the heap's `_min` after a pop, from the oracle answer `ans` (item of the new `_min`, `none` = heap empty);
+the flag says whether the answer was admissible (a node of minimal key) -/
+def newMinOf (es' : List HEntry) (ans : Option Nat) : Option HEntry × Bool :=
+  match es' with
+  | [] => (none, ans.isNone)
+  | _ :: _ =>
+    match ans.bind (fun it => es'.find? (fun e => e.item == it)) with
+    | some e => if Heap.isMinIn es' e then (some e, true) else (Heap.firstMin es', false)
+    | none => (Heap.firstMin es', false)
+
+/-- remove `node` from a heap (`decrease_key(node, -∞); pop()`, or `pop()` when `node` is `_min`) -/
+def popNode (sel : Sel) (s : SS) (isT : Bool) (node : HEntry) : SS :=
   let h := if isT then s.t else s.u
-  let es' := h.es.filter (fun e => e.nid != nid)
-  let ans := sel s.pops
-  let cand : Option HEntry := ans.bind (fun it => es'.find? (fun e => e.item == it))
-  let (newMin, ok) : Option Nat × Bool :=
-    match es' with
-    | [] => (none, ans.isNone)
-    | _ :: _ =>
-      match cand with
-      | some e => if Heap.isMinIn es' e then (some e.nid, true) else ((Heap.firstMin es').map (·.nid), false)
-      | none => ((Heap.firstMin es').map (·.nid), false)
-  let h' : Heap := ⟨es', newMin⟩
-  let s := { s with pops := s.pops + 1, popLog := isT :: s.popLog, bad := s.bad || !ok }
+  let es' := h.es.erase node
+  let r := newMinOf es' (sel s.pops)
+  let h' : Heap := ⟨es', r.1⟩
+  let s := { s with pops := s.pops + 1, popLog := isT :: s.popLog, bad := s.bad || !r.2 }
   if isT then { s with t := h' } else { s with u := h' }
 
 def pushU (s : SS) (item : Nat) : SS :=
@@ -146,10 +148,10 @@ def updateBounds (sel : Sel) (s : SS) (node : HEntry) : SS :=
   match curAt s.σ node.item with
   | none => { s with unsupported := true }
   | some b =>
-    if dominatedByBest s node.item b then popNode sel s false node.nid
-    else if s.ib.dominates b then popNode sel s false node.nid
-    else if b.definitive then pushT (popNode sel s false node.nid) node.item
-    else if Bound.lt node.key.lo b.lo then pushU (popNode sel s false node.nid) node.item
+    if dominatedByBest s node.item b then popNode sel s false node
+    else if s.ib.dominates b then popNode sel s false node
+    else if b.definitive then pushT (popNode sel s false node) node.item
+    else if Bound.lt node.key.lo b.lo then pushU (popNode sel s false node) node.item
     else s
 
 inductive StepRes where
@@ -259,7 +261,7 @@ def removeBest (sel : Sel) (s : SS) : Option Nat × SS :=
     let h := if useT then s.t else s.u
     match h.minEntry with
     | none => (none, { s with unsupported := true })
-    | some e => (some e.item, popNode sel s useT e.nid)
+    | some e => (some e.item, popNode sel s useT e)
 
 /-! ## JSON driver -/
 open Lean
